@@ -2,7 +2,10 @@
 import itertools
 import json
 import os
+import shutil
 import sys
+import tempfile
+import time
 
 _HARNESS = os.path.dirname(os.path.dirname(os.path.abspath(__file__)))
 if _HARNESS not in sys.path:
@@ -18,8 +21,14 @@ RULE = ("exhaustive: every assignment of {200 with an empty body, 200 with 1-3 e
         "timeout} to the URIs of every shape of <= 3 sources holding <= 5 URIs in total (quick; <= 6 thorough; sources without "
         "URIs included), requests.get interposed; bodies vary with the URI (with / without name lines, CRLF, trailing blank "
         "lines, HTML with blank lines, error bodies that hold valid TLEs, Timeout / ConnectTimeout / ReadTimeout); every entry "
-        "served is a distinct element set, so the result shows which URI each entry came from and in which order; Space-Track: "
-        "{login 200/401/500} x {query 200/404/500} x 5 bodies with requests.Session interposed; distinct = (shape, assignment)")
+        "served is a distinct element set, so the result shows which URI each entry came from and in which order; the URI "
+        "names of every case sort in the configured order, against it, or in neither order (drawn per case; the body belongs "
+        "to the position, the expectation follows the configured order); one URI listed twice, within a source or in two "
+        "sources, for every assignment over <= 4 positions (<= 5 thorough); the whole table and the Space-Track table again "
+        "with the TLES environment variable set to a pattern whose newest file holds other satellites / the served satellites "
+        "with other elements / matching nothing, for <= 4 URIs (<= 5 thorough), restored afterwards: the same results are "
+        "required; Space-Track: {login 200/401/500} x {query 200/404/500} x 5 bodies with requests.Session interposed; "
+        "distinct = (shape, assignment, URI name order, repeated position, TLES)")
 ASSUMPTIONS = ["a body is abstracted to the list of entries _parse_tles_for_downloader extracts from it; the extraction itself is "
                "C10's subject",
                "'non-TLE text' = text in which no stripped line starts with '1 ' (HTML / error pages, blank lines allowed): it holds "
@@ -27,7 +36,12 @@ ASSUMPTIONS = ["a body is abstracted to the list of entries _parse_tles_for_down
                "success = status 200 exactly (the code's test); error statuses generated: 403, 404, 418, 500, 503",
                "sources is a dict, so source names are distinct (hypothesis Nodup of the theorems)",
                "failures other than a status or requests.exceptions.Timeout (e.g. ConnectionError) are outside the statement",
-               "Space-Track requests carry no timeout in the code; only status outcomes are modelled there"]
+               "Space-Track requests carry no timeout in the code; only status outcomes are modelled there",
+               "a URI listed twice in one source: the model (and the code) request it twice and concatenate its entries twice; "
+               "the oracle also accepts its entries once, at the first position (the statement speaks of 'its successful URIs'); "
+               "a URI listed in two sources must serve both",
+               "the TLES variable is not part of the model: the model's answer for an assignment is compared with the code's "
+               "under every TLES setting"]
 TRUSTED = ["model: PV.Model.Download (hand-written from tlefile.py Downloader.fetch_plain_tle / fetch_spacetrack), tied by the "
            "exhaustive outcome-assignment table (exact agreement of result dicts, key order and raised URI)"]
 LEVEL_TEXT = ("Theorems (Lean 4 kernel, core only, by induction over arbitrary lists - no bound on sources, URIs or entries): "
@@ -119,16 +133,120 @@ def shapes(max_total, max_sources=3):
     return out
 
 
-def layout(sizes, kinds):
-    """-> [(source, [(uri, i, kind), ...]), ...]; URIs are numbered globally in request order."""
-    srcs, i = [], 0
-    for s, n in enumerate(sizes):
+# host labels in ascending lexical order: the label decides where a URI sorts, the configured order is the request order
+LABELS = ["alpha", "bravo", "delta", "kilo", "papa", "tango", "yankee", "zulu"]
+
+
+def layout(sizes, kinds, order=None, slots=None):
+    """-> [(source, [(uri, i, kind), ...]), ...]; distinct URIs are numbered globally in the order of their first request.
+
+    order[i] = lexical rank of URI i's name among the URIs (None: names ascend with the configured order);
+    slots[p] = which distinct URI is configured at position p (None: all distinct; a repeated number = a URI listed twice,
+    in one source or in two)."""
+    n = sum(sizes)
+    slots = list(range(n)) if slots is None else list(slots)
+    order = list(range(max(slots) + 1 if slots else 0)) if order is None else list(order)
+    srcs, p, first_src = [], 0, {}
+    for s, m in enumerate(sizes):
         uris = []
-        for _ in range(n):
-            uris.append(("https://host%d.example/tle/u%d.txt" % (s, i), i, kinds[i]))
-            i += 1
+        for _ in range(m):
+            i = slots[p]
+            first_src.setdefault(i, s)
+            uris.append(("https://%s.example/host%d/tle/u%d.txt" % (LABELS[order[i]], first_src[i], i), i, kinds[i]))
+            p += 1
         srcs.append(("src%d" % s, uris))
     return srcs
+
+
+def pick_order(rng, n):
+    """Names in configured order (as generated configs have them), in the opposite order, or in any order."""
+    r = rng.random()
+    o = list(range(n))
+    if r < 0.2:
+        return o
+    if r < 0.5:
+        return o[::-1]
+    rng.shuffle(o)
+    return o
+
+
+def dup_slots(n):
+    """All ways to list one URI twice among n positions (n - 1 distinct URIs, numbered by first occurrence)."""
+    out = []
+    for a in range(n):
+        for b in range(a + 1, n):
+            slots, nxt = [], 0
+            for p in range(n):
+                if p == b:
+                    slots.append(slots[a])
+                else:
+                    slots.append(nxt)
+                    nxt += 1
+            out.append(slots)
+    return out
+
+
+# ---- the TLES environment variable while downloading: a downloaded entry is the served text, whatever local files exist
+TLES_KINDS = ["other", "same", "nothing"]
+
+
+def _variant(l1, l2, satnum=None, elnum=None):
+    """The element set re-issued under another catalogue number / element number (checksums recomputed)."""
+    if satnum is not None:
+        l1 = l1[:2] + satnum + l1[7:]
+        l2 = l2[:2] + satnum + l2[7:]
+    if elnum is not None:
+        l1 = l1[:64] + "%4d" % elnum
+    return tlegen.fix_checksum(l1), tlegen.fix_checksum(l2)
+
+
+class TlesEnv:
+    """Local TLE files and the TLES variable: 'other' = the newest matching file holds other satellites, 'same' = it holds
+    the satellites that are served (same names, same catalogue numbers) with other elements, 'nothing' = the pattern matches
+    no file.  The variable is restored on exit."""
+
+    def __enter__(self):
+        self.saved = os.environ.get("TLES")
+        self.work = tempfile.mkdtemp(prefix="pv-c17-")
+        self.patterns = {}
+        served = set(e[0][2:7] for e in POOL)
+        free = [("%05d" % n) for n in range(90001, 90100) if ("%05d" % n) not in served]
+        for kind in ("other", "same"):
+            d = os.path.join(self.work, kind)
+            os.makedirs(d)
+            for age, fname in enumerate(("older.tle", "newest.tle")):
+                txt = ""
+                for j, (l1, l2) in enumerate(POOL):
+                    if kind == "other":
+                        v1, v2 = _variant(l1, l2, satnum=free[(j + age) % len(free)])
+                        name = "LOCALSAT %d" % (j + age)
+                    else:
+                        v1, v2 = _variant(l1, l2, elnum=(int(l1[64:68]) + 1 + age) % 10000)
+                        name = NAMES[j % len(NAMES)]
+                    if ID_OF.get((v1, v2)) is not None:
+                        raise RuntimeError("C17 harness: a local variant coincides with a served element set")
+                    txt += (name + "\n" if j % 2 == 0 else "") + v1 + "\n" + v2 + "\n"
+                with open(os.path.join(d, fname), "w") as f:
+                    f.write(txt)
+                time.sleep(0.02)
+            self.patterns[kind] = os.path.join(d, "*.tle")
+        os.makedirs(os.path.join(self.work, "nothing"))
+        self.patterns["nothing"] = os.path.join(self.work, "nothing", "*.tle")
+        return self
+
+    def use(self, kind):
+        if kind is None:
+            os.environ.pop("TLES", None)
+        else:
+            os.environ["TLES"] = self.patterns[kind]
+
+    def __exit__(self, *a):
+        if self.saved is None:
+            os.environ.pop("TLES", None)
+        else:
+            os.environ["TLES"] = self.saved
+        shutil.rmtree(self.work, ignore_errors=True)
+        return False
 
 
 class Interposed:
@@ -243,15 +361,35 @@ def model_parse(out):
 
 
 def statement(srcs):
-    """What the statement requires, computed from the assignment alone."""
+    """What the statement requires, computed from the assignment alone (configured order of the URIs)."""
     if any(k == "to" for _, uris in srcs for (_, _, k) in uris):
         return ("timeout", None)
     return ("dict", [(s, [ID_OF[e] for (_, i, k) in uris if k in ("ok0", "okN", "oknon") for e in entries_of(i, k)])
                      for s, uris in srcs])
 
 
-def case_of(srcs):
-    return {"sources": [[s, [[u, i, k] for (u, i, k) in uris]] for s, uris in srcs]}
+def also_accepted(srcs):
+    """A URI listed twice in ONE source: 'the entries served by its successful URIs' in order may be read per listed URI
+    (its entries twice: what the model says) or per distinct URI at its first position; the oracle accepts both."""
+    alt = {}
+    for s, uris in srcs:
+        seen, ids = set(), []
+        for (u, i, k) in uris:
+            if u in seen:
+                continue
+            seen.add(u)
+            if k in ("ok0", "okN", "oknon"):
+                ids += [ID_OF[e] for e in entries_of(i, k)]
+        if len(seen) != len(uris):
+            alt[s] = ids
+    return alt
+
+
+def case_of(srcs, tles=None):
+    c = {"sources": [[s, [[u, i, k] for (u, i, k) in uris]] for s, uris in srcs]}
+    if tles is not None:
+        c["TLES"] = tles
+    return c
 
 
 def observe(ctx):
@@ -268,40 +406,67 @@ def observe(ctx):
         logging.disable(logging.NOTSET)
 
 
+def _spacetrack(ip, tlefile, tles):
+    st = []
+    bodies = [("-", ""), ("e3", body_text(0, POOL[20:23])), ("N", NON_TLE[0]), ("e2", body_text(2, POOL[23:25])),
+              ("e1", body_text(3, POOL[25:26]))]
+    ents = {"-": [], "e3": POOL[20:23], "N": [], "e2": POOL[23:25], "e1": POOL[25:26]}
+    for login in (200, 401, 500):
+        for query in (200, 404, 500):
+            for bname, btxt in bodies:
+                ip.session_plan = {"login": login, "query": query, "body": btxt}
+                ip.calls = []
+                cfg = {"platforms": {33591: "NOAA-19", 38771: "METOP-B"},
+                       "downloaders": {"fetch_spacetrack": {"user": "u", "password": "p"}}}
+                try:
+                    r = tlefile.Downloader(cfg).fetch_spacetrack()
+                    got = ("list", [ID_OF.get((t.line1, t.line2), -1) for t in r])
+                except Exception as e:  # noqa
+                    got = ("exc", type(e).__name__, str(e)[:200])
+                st.append({"login": login, "query": query, "body": bname, "ids": [ID_OF[e] for e in ents[bname]],
+                           "got": got, "calls": list(ip.calls), "tles": tles})
+    return st
+
+
 def _observe(ctx, max_total, obs):
-    with Interposed() as ip:
+    from pyorbital import tlefile
+    max_env = ctx.size(4, 5)      # the whole table again for every TLES setting, up to this many URIs
+    max_dup = ctx.size(4, 5)
+    with TlesEnv() as tenv, Interposed() as ip:
+        def run(sizes, kinds, order, slots, tles, family):
+            srcs = layout(sizes, kinds, order, slots)
+            got = run_plain(ip, srcs)
+            obs.append(((sizes, kinds, tuple(order), tuple(slots) if slots else None, tles), family, got))
+
+        # (1) every assignment over every shape, TLES unset; URI names in / against / regardless of the configured order
+        tenv.use(None)
         for sizes in shapes(max_total):
             n = sum(sizes)
             for kinds in itertools.product(KINDS, repeat=n):
-                srcs = layout(sizes, kinds)
-                got = run_plain(ip, srcs)
-                obs.append((sizes, kinds, got, len(ip.calls)))
-        st = []
-        from pyorbital import tlefile
-        bodies = [("-", ""), ("e3", body_text(0, POOL[20:23])), ("N", NON_TLE[0]), ("e2", body_text(2, POOL[23:25])),
-                  ("e1", body_text(3, POOL[25:26]))]
-        ents = {"-": [], "e3": POOL[20:23], "N": [], "e2": POOL[23:25], "e1": POOL[25:26]}
-        for login in (200, 401, 500):
-            for query in (200, 404, 500):
-                for bname, btxt in bodies:
-                    ip.session_plan = {"login": login, "query": query, "body": btxt}
-                    ip.calls = []
-                    cfg = {"platforms": {33591: "NOAA-19", 38771: "METOP-B"},
-                           "downloaders": {"fetch_spacetrack": {"user": "u", "password": "p"}}}
-                    try:
-                        r = tlefile.Downloader(cfg).fetch_spacetrack()
-                        got = ("list", [ID_OF.get((t.line1, t.line2), -1) for t in r])
-                    except Exception as e:  # noqa
-                        got = ("exc", type(e).__name__, str(e)[:200])
-                    st.append({"login": login, "query": query, "body": bname, "ids": [ID_OF[e] for e in ents[bname]],
-                               "got": got, "calls": list(ip.calls)})
+                run(sizes, kinds, pick_order(ctx.rng, n), None, None, "table")
+        # (2) one URI listed twice (within a source or in two sources), every assignment of the distinct URIs
+        for sizes in shapes(max_dup):
+            n = sum(sizes)
+            for slots in dup_slots(n):
+                for kinds in itertools.product(KINDS, repeat=n - 1):
+                    run(sizes, kinds, pick_order(ctx.rng, n - 1), slots, None, "listed_twice")
+        st = _spacetrack(ip, tlefile, None)
+        # (3) the same experiments with the TLES variable set
+        for tles in TLES_KINDS:
+            tenv.use(tles)
+            for sizes in shapes(max_env):
+                n = sum(sizes)
+                for kinds in itertools.product(KINDS, repeat=n):
+                    run(sizes, kinds, pick_order(ctx.rng, n), None, tles, "table_TLES_" + tles)
+            st += _spacetrack(ip, tlefile, tles)
+        tenv.use(None)
         # downloader not configured
         try:
             r = tlefile.Downloader({"downloaders": {}}).fetch_plain_tle()
             unconf = ("dict", [(s, len(v)) for s, v in r.items()]) if isinstance(r, dict) else ("other", repr(r))
         except Exception as e:  # noqa
             unconf = ("exc", type(e).__name__)
-    ctx._c17_obs = {"plain": obs, "st": st, "unconf": unconf, "max_total": max_total}
+    ctx._c17_obs = {"plain": obs, "st": st, "unconf": unconf, "max_total": max_total, "max_env": max_env, "max_dup": max_dup}
     return ctx._c17_obs
 
 
@@ -323,18 +488,18 @@ def norm_impl(got, srcs):
 def correspond(ctx):
     obs = observe(ctx)
     lines, meta = [], []
-    for sizes, kinds, got, ncalls in obs["plain"]:
-        srcs = layout(sizes, kinds)
-        lines.append(model_line(srcs))
-        meta.append((srcs, got))
+    for key, family, got in obs["plain"]:
+        lines.append(model_line(layout(*key[:4])))
+        meta.append((key, got))
     outs = ctx.driver().run_parallel(lines)
-    for line, (srcs, got), o in zip(lines, meta, outs):
+    for line, (key, got), o in zip(lines, meta, outs):
+        srcs, tles = layout(*key[:4]), key[4]
         m = model_parse(o)
         g = norm_impl(got, srcs)
         ctx.count("eval_corr")
         ctx.bump("model_outcome", m[0])
         if tuple(g) != tuple(m):
-            ctx.disagree("c17", dict(case_of(srcs), driver=line), g, m)
+            ctx.disagree("c17", dict(case_of(srcs, tles), driver=line), g, m)
     for rec in obs["st"]:
         body = rec["body"] if rec["body"] in ("-", "N") else ".".join(str(x) for x in rec["ids"])
         line = "c17st %d %d %s" % (rec["login"], rec["query"], body)
@@ -347,13 +512,15 @@ def correspond(ctx):
                  for c in rec["calls"]]
         ctx.count("eval_corr_spacetrack")
         if got != ("list", mids) or greqs != mreqs:
-            ctx.disagree("c17st", {"login": rec["login"], "query": rec["query"], "body": rec["body"]}, [got, greqs], [mids, mreqs])
+            ctx.disagree("c17st", {"login": rec["login"], "query": rec["query"], "body": rec["body"], "TLES": rec.get("tles")},
+                         [got, greqs], [mids, mreqs])
     ctx.exhaustive = True
 
 
-def judge_plain(ctx, srcs, got):
+def judge_plain(ctx, srcs, got, tles=None):
     want = statement(srcs)
-    case = case_of(srcs)
+    alt = also_accepted(srcs)
+    case = case_of(srcs, tles)
     if want[0] == "timeout":
         if not (got[0] == "exc" and got[1] == "TleDownloadTimeoutError"):
             ctx.violation("timeout_not_loud", case, list(got), "TleDownloadTimeoutError raised", site="Downloader.fetch_plain_tle")
@@ -372,7 +539,7 @@ def judge_plain(ctx, srcs, got):
         if s not in have:
             ctx.violation("source_missing", dict(case, source=s), [list(x) for x in got[1]], {"dict": want[1]}, site="Downloader.fetch_plain_tle")
             bad = 1
-        elif have[s] != ids:
+        elif have[s] != ids and not (s in alt and have[s] == alt[s]):
             ctx.violation("wrong_entries", dict(case, source=s), have[s], ids, site="Downloader.fetch_plain_tle")
             bad = 1
     if not bad and [s for s, _ in got[1]] != [s for s, _ in want[1]]:
@@ -384,6 +551,8 @@ def judge_plain(ctx, srcs, got):
 def judge_st(ctx, rec):
     got, calls = rec["got"], rec["calls"]
     case = {"login": rec["login"], "query": rec["query"], "body": rec["body"], "spacetrack": True}
+    if rec.get("tles") is not None:
+        case["TLES"] = rec["tles"]
     n_query = sum(1 for c in calls if c[0] == "get")
     if rec["login"] != 200:
         want, wq = [], 0
@@ -402,14 +571,22 @@ def judge_st(ctx, rec):
 
 def oracle(ctx):
     obs = observe(ctx)
-    for sizes, kinds, got, ncalls in obs["plain"]:
-        srcs = layout(sizes, kinds)
+    for key, family, got in obs["plain"]:
+        srcs = layout(*key[:4])
+        sizes, kinds = key[0], key[1]
         ctx.count("eval_oracle")
-        ctx.distinct((sizes, kinds))
-        judge_plain(ctx, srcs, got)
+        ctx.distinct(key)
+        judge_plain(ctx, srcs, got, key[4])
         ctx.bump("observed", got[0] if got[0] != "exc" else got[1])
+        ctx.bump("family", family)
+        if family == "table":
+            for s, uris in srcs:
+                names = [u for (u, _, _) in uris]
+                if len(names) > 1:
+                    ctx.bump("uri_names_of_a_source", "in configured order" if names == sorted(names) else
+                             "in reverse order" if names == sorted(names, reverse=True) else "in neither order")
         if len(ctx.samples) < 4 and sum(sizes) == 4 and len(sizes) == 2 and "http" in kinds and "okN" in kinds and "to" not in kinds \
-                and ctx.rng.random() < 0.05:
+                and family == "table" and ctx.rng.random() < 0.05:
             ctx.sample({"assignment": case_of(srcs)["sources"], "result": got[1]})
     for rec in obs["st"]:
         ctx.count("eval_oracle_spacetrack")
@@ -417,7 +594,8 @@ def oracle(ctx):
     if obs["unconf"] != ("dict", []):
         ctx.violation("unconfigured_not_empty", {"unconfigured": True}, list(obs["unconf"]), "{}", site="Downloader.fetch_plain_tle")
     ctx.exhaustive = True
-    ctx.note("shapes: <= 3 sources, <= %d URIs in total; alphabet %s" % (obs["max_total"], KINDS))
+    ctx.note("shapes: <= 3 sources, <= %d URIs in total; alphabet %s; the whole table again under TLES = %s for <= %d URIs; "
+             "one URI listed twice for <= %d positions" % (obs["max_total"], KINDS, TLES_KINDS, obs["max_env"], obs["max_dup"]))
 
 
 def match_known(entry, v):
@@ -427,13 +605,15 @@ def match_known(entry, v):
 
 def replay(ctx, case):
     inp = case.get("input", case)
-    with Interposed() as ip:
+    tles = inp.get("TLES")
+    with TlesEnv() as tenv, Interposed() as ip:
         if inp.get("spacetrack"):
             obs = observe(ctx)
             rc = 0
             for rec in obs["st"]:
-                if (rec["login"], rec["query"], rec["body"]) == (inp["login"], inp["query"], inp["body"]):
-                    print("spacetrack login=%s query=%s body=%s -> %s, requests %s" % (rec["login"], rec["query"], rec["body"], rec["got"], rec["calls"]))
+                if (rec["login"], rec["query"], rec["body"], rec.get("tles")) == (inp["login"], inp["query"], inp["body"], tles):
+                    print("spacetrack login=%s query=%s body=%s TLES=%s -> %s, requests %s" % (
+                        rec["login"], rec["query"], rec["body"], tles, rec["got"], rec["calls"]))
                     rc |= judge_st(ctx, rec)
             return 1 if rc else 0
         if inp.get("unconfigured"):
@@ -441,11 +621,17 @@ def replay(ctx, case):
             print("unconfigured ->", obs["unconf"])
             return 0 if obs["unconf"] == ("dict", []) else 1
         srcs = [(s, [(u, i, k) for (u, i, k) in uris]) for s, uris in inp["sources"]]
-        got = run_plain(ip, srcs)
-    print("assignment:", json.dumps(inp["sources"]))
+        tenv.use(tles)
+        import logging
+        logging.disable(logging.CRITICAL)
+        try:
+            got = run_plain(ip, srcs)
+        finally:
+            logging.disable(logging.NOTSET)
+    print("assignment:", json.dumps(inp["sources"]), "TLES:", tles or "unset")
     print("observed:", got)
-    print("statement requires:", statement(srcs))
-    rc = judge_plain(ctx, srcs, got)
+    print("statement requires:", statement(srcs), also_accepted(srcs) or "")
+    rc = judge_plain(ctx, srcs, got, tles)
     for v in ctx.violations[:3]:
         print("VIOLATES:", v["kind"], "observed:", v["observed"], "required:", v["required"])
     return 1 if rc else 0
